@@ -10,3 +10,7 @@ func FS(op, path, path2 string) {}
 
 // Yield is called at named scheduling points.
 func Yield(site string) {}
+
+// SQLDriver is the database/sql driver name litestream opens its own
+// connection to the source database with.
+const SQLDriver = "sqlite"
